@@ -886,12 +886,31 @@ for _s in PROPS["C08"]["streams"]:
 # reused, regenerated from the source on every run (tools/extract/machines.go -> Gen/Machines.lean)
 PROPS["C17"]["theorems"] += ["Refmt.C17Machines.requisition_zero", "Refmt.C17Machines.release_grow", "Refmt.C17Machines.bind_forgets",
     "Refmt.C17Machines.first_machine_independent_of_history", "Refmt.C17Machines.every_requisition_zero", "Refmt.C17Machines.writeTip_keeps_parents",
-    "Refmt.C17Machines.slab_discipline_as_modelled", "Refmt.C17Machines.machine_fields_as_audited", "Refmt.C17Machines.every_field_accounted",
-    "Refmt.C17Machines.carried_exact"]
+    "Refmt.C17Machines.slab_discipline_as_modelled", "Refmt.C17Machines.accounted_table", "Refmt.C17Machines.every_field_accounted"]
 PROPS["C17"]["extra_modules"] = PROPS["C17"].get("extra_modules", []) + ["RefmtProofs.Props.C17Machines"]
 PROPS["C17"]["claim"] += (" Since C17Machines the object layer's reuse is tied statically as well: a model of the slab (grow appends a zero row, "
     "release drops the tip, Bind forgets everything) in which a requisitioned row is the zero row after ANY history and two instances with "
     "any two pasts agree after Bind; the source text of grow / release / Bind and a table of every field of every struct with a Reset method "
     "(obj machines, cbor / json / pretty encoders and decoders: assigned by Reset at top level, under a condition, never; assigned at every "
-    "yield site, some, none) are regenerated from the working tree on every run and must equal the audited ones; every field is written "
-    "for every use or is one of 15 audited carried fields, each with its reason (C17Machines.carried).")
+    "yield site, some, none) are regenerated from the working tree on every run; the text must equal the audited one, and every field must be "
+    "written for every use or be one of 15 audited carried fields, each with its reason (C17Machines.carried).")
+
+# C17 / C07: the STATEFUL model of obj.Marshaller (slab rows, machine stack, one token per Step, Bind) refines the functional
+# model from any state the instance was left in (C17ObjMarshal, about 4300 lines), and is itself tied to the code: a quarter of
+# the marshal stream is also run through it (op marshalm), starting from an instance that abandoned a run
+PROPS["C17"]["theorems"] += ["Refmt.C17ObjMarshal.marshaller_refines_fixed", "Refmt.C17ObjMarshal.marshaller_refines_statement_false",
+    "Refmt.C17ObjMarshal.reused_eq_fresh", "Refmt.C17ObjMarshal.completed_run_stack_empty"]
+PROPS["C17"]["extra_modules"] = PROPS["C17"].get("extra_modules", []) + ["RefmtProofs.Props.C17ObjMarshal"]
+PROPS["C17"]["claim"] += (" Since C17ObjMarshal the object MARSHALLER's reuse is proved for a model that has the code's structure: a stateful model "
+    "(RefmtModel/Model/Obj/MarshalMach.lean: one row per requisition with a sub-struct per machine holding the Go fields, machine stack, "
+    "current machine, grow / release / yield without zeroing, Reset and Step per machine emitting one token per call, Recurse, Bind) and "
+    "the theorem marshaller_refines_fixed: for every atlas without same-row clashes (NoClash, decidable), every type, value and EVERY "
+    "dirty starting state (any rows, any stack, any leftover fields, a run abandoned anywhere), after Bind the stateful marshaller emits "
+    "exactly the functional model's tokens and outcome; reused_eq_fresh holds for every atlas. The full statement without NoClash is "
+    "FALSE (marshaller_refines_statement_false): with a transform whose serial type needs a transform itself the stateful model gets "
+    "stuck - and the real code panicked (Marshal) or overflowed the stack (Unmarshal): repaired in /repo (e9d1a55, 412331a), atlas 90 of "
+    "the zoo pins the repaired behaviour.")
+PROPS["C07"]["theorems"] += ["Refmt.C17ObjMarshal.marshaller_refines_fixed"]
+PROPS["C07"]["extra_modules"] = PROPS["C07"].get("extra_modules", []) + ["RefmtProofs.Props.C17ObjMarshal"]
+PROPS["C07"]["rule_text"] += ("; marshalm: every fourth marshal case again through the stateful model of the marshaller (from an instance that "
+    "abandoned a run after three tokens), and the chained-transform atlas 90, which the library must refuse without panicking")
